@@ -26,7 +26,7 @@ evaluates the specification monitor on the implementation's answers.  Output, on
 -/
 open GoguVerif
 
-def kindOf (name : String) : Option Kind :=
+def kindOfBase (name : String) : Option Kind :=
   match name with
   | "queue" => some Kinds.Q.queueKind
   | "stack" => some Kinds.S.stackKind
@@ -51,6 +51,61 @@ def kindOf (name : String) : Option Kind :=
   | "lstack" => some Kinds.S.lstackMonitor
   | _ => none
 
+/-! ## C02: linearizability search with the sequential monitors as oracle -/
+
+structure LinCall where
+  inv : Int
+  ret : Int
+  line : Line
+deriving Inhabited
+
+structure LinSt where
+  innerName : String
+  params : List Val
+  calls : Array LinCall := #[]
+  deadlock : Bool := false
+
+/-- Depth-first search for a linearization: an order of all calls that respects real-time precedence
+(`a.ret < b.inv` ⇒ a before b) and that the sequential specification monitor of the type accepts
+(known-finding deviations of the sequential behaviour are accepted too: they are C03–C09's business). -/
+partial def linSearch (k : Kind) (calls : Array LinCall) (st : k.σ) (placed : List Nat) : Bool :=
+  if placed.length == calls.size then true
+  else
+    (List.range calls.size).any fun i =>
+      if placed.contains i then false
+      else
+        let c := calls[i]!
+        -- eligible: no unplaced call returned before c was invoked
+        let blocked := (List.range calls.size).any fun j =>
+          j != i && !(placed.contains j) && (calls[j]!).ret < c.inv
+        if blocked then false
+        else
+          let r := k.step st c.line
+          if r.spec.isSome || r.bad.isSome then false
+          else linSearch k calls r.st (i :: placed)
+
+def linKindWith (kindOf : String → Option Kind) : Kind where
+  σ := LinSt
+  init := fun ps => match ps with
+    | .atom name :: rest => some { innerName := name, params := rest }
+    | _ => none
+  step := fun st l =>
+    match l.op, l.args with
+    | "h", _ :: .int inv :: .int ret :: .atom op :: args =>
+      { st := { st with calls := st.calls.push { inv := inv, ret := ret, line := { op := op, args := args, res := l.res } } } }
+    | "deadlock", _ => { st := { st with deadlock := true }, spec := some "no-deadlock", tags := ["deadlock"] }
+    | "check", _ =>
+      match kindOf st.innerName with
+      | none => { st := st, bad := some s!"lin: unknown inner kind {st.innerName}" }
+      | some k =>
+        match k.init st.params with
+        | none => { st := st, bad := some "lin: bad inner params" }
+        | some s0 =>
+          let concurrent := st.calls.any fun a => st.calls.any fun b => a.inv < b.ret && b.inv < a.ret && a.inv != b.inv
+          if linSearch k st.calls s0 [] then { st := st, tags := [st.innerName], nontrivial := concurrent }
+          else { st := st, tags := [st.innerName], spec := some s!"linearizable:{st.innerName}" }
+    | _, _ => { st := st, bad := some s!"lin: bad line {l.op}" }
+
 structure DAcc where
   cases : Nat := 0
   lines : Nat := 0
@@ -74,6 +129,9 @@ def bumpTags (acc : List (String × Nat)) (ts : List String) : List (String × N
   ts.foldl (fun acc t =>
     if acc.any (·.1 == t) then acc.map (fun p => if p.1 == t then (p.1, p.2 + 1) else p)
     else (t, 1) :: acc) acc
+
+def kindOf (name : String) : Option Kind :=
+  if name == "lin" then some (linKindWith kindOfBase) else kindOfBase name
 
 def hashCase (kind : String) (params : List Val) (lines : Array Line) : UInt64 :=
   let h0 := mixHash (hash kind) (hash (params.map toString))
